@@ -313,6 +313,37 @@ def r5_resample(idx, r):
     gl = [(norm(t), p) for t, p in path_conditions(f.node, left.stmt) if p][-1:]
     gr = [(norm(t), p) for t, p in path_conditions(f.node, right.stmt) if p][-1:]
     r.require(gl == [("xout[i - 1] > xin[start - 1]", True)] and gr == [("xout[i] < xin[min(end, len(xin) - 1)]", True)], "partial-bin-guards", f, msg=f"fractions apply when the output edge falls strictly inside the bin: {gl} {gr}")
+    # sum mode, left edge: the first entry may be the very entry the right-edge trim already scaled (one input bin covering the whole output
+    # bin).  With V the entry's current value, Y the untrimmed input value and L the left fraction, the only update that is right in both cases
+    # (V = Y -> Y.L ; V = Y.R -> Y.(R + L - 1)) is V - Y.(1 - L): multiplying V by L gives Y.R.L for the single-bin case.
+    lif = next((n for n in walk_local(f.node) if isinstance(n, ast.If) and left.stmt in n.body), None)
+    upd = [n for n in (ast.walk(lif) if lif is not None else []) if isinstance(n, (ast.Assign, ast.AugAssign)) and norm(n.targets[0] if isinstance(n, ast.Assign) else n.target) == "chunk[0]"]
+    if len(upd) != 1:
+        raise AnalysisError("resampleStepwise: the sum-mode update of the first entry not found")
+    u = upd[0]
+    val = u.value if isinstance(u, ast.Assign) else ast.BinOp(left=u.target, op=u.op, right=u.value)
+
+    class _E(RatEval):
+        def ev(self, n):
+            if isinstance(n, ast.Subscript) and norm(n) == "chunk[0]":
+                return Rat(A("V"), Poly.const(1))
+            if isinstance(n, ast.Subscript) and norm(n) == "yin[start - 1]":
+                return Rat(A("Y"), Poly.const(1))
+            if isinstance(n, ast.Name) and n.id == "fraction":
+                return Rat(A("L"), Poly.const(1))
+            return super().ev(n)
+    try:
+        got = _E().ev(val)
+    except AnalysisError as e:
+        got = None
+    want_u = Rat(A("V") - A("Y") * (Poly.const(1) - A("L")), Poly.const(1))
+    r.require(got is not None and got == want_u, "sum-mode:left-trim-correct-when-one-input-bin-covers-the-output-bin", f, node=u,
+              msg=f"the first entry is updated as `{norm(u)}`; when the output interval lies inside ONE input bin that entry was already multiplied by the right-edge fraction R, "
+                  "so the share becomes R.L instead of R + L - 1 (xin=[0,10], yin=[10], xout=[0,2,4,10] -> [2, 3.2, 6] instead of [2, 2, 6])")
+    ch = [s_ for s_ in iter_stores(f.node) if s_.attr == "chunk" and s_.kind == "assign" and s_.value is not None and "yin[" in norm(s_.value)]
+    r.require(len(ch) == 1 and not isinstance(ch[0].value, ast.Subscript), "chunk-is-a-copy-of-the-input-values", f, node=ch[0].stmt if ch else None,
+              msg="`chunk` is a bare slice of the caller's yin and is scaled in place afterwards: for a numpy array the slice is a view, so resampling modifies the caller's data (and the next "
+                  "output interval reads the modified value)")
     ys = [c for c in iter_calls(f.node) if norm(c.func) == "yout.append"]
     avg = next((c for c in ys if "weighted_sum" in norm(c)), None)
     env = single_assign_env(f.node)
